@@ -101,16 +101,11 @@ static int json_pointer_get_single_path(struct json_object *obj, char *path,
 			return -1;
 		}
 
+		/* The index is in range, so the element exists; it may be a JSON null (NULL) */
 		obj = json_object_array_get_idx(obj, *idx);
-		if (obj)
-		{
-			if (value)
-				*value = obj;
-			return 0;
-		}
-		/* Entry not found */
-		errno = ENOENT;
-		return -1;
+		if (value)
+			*value = obj;
+		return 0;
 	}
 
 	/* RFC states that we first must eval all ~1 then all ~0 */
